@@ -477,13 +477,13 @@ func fnvKey(p []byte) string {
 // ---------------------------------------------------------------------------
 // corpus and structure-aware mutations
 
-type corpusFile struct {
+type c07File struct {
 	name string
 	data []byte
 	gb   bool
 }
 
-func c07Corpus() ([]corpusFile, error) {
+func c07Corpus() ([]c07File, error) {
 	dir := ""
 	for _, d := range []string{os.Getenv("VERIF_REPO"), "/repo"} {
 		if d == "" {
@@ -498,13 +498,13 @@ func c07Corpus() ([]corpusFile, error) {
 		return nil, fmt.Errorf("seqio/testdata not found")
 	}
 	names := []string{"NC_001422_part.gb", "NC_001422_part.fasta", "pBAT5.txt", "NC_000913.3.min.gb", "NC_001422.gb", "NC_001422.fasta"}
-	var out []corpusFile
+	var out []c07File
 	for _, n := range names {
 		b, err := os.ReadFile(filepath.Join(dir, n))
 		if err != nil {
 			return nil, err
 		}
-		out = append(out, corpusFile{n, b, !strings.HasSuffix(n, ".fasta")})
+		out = append(out, c07File{n, b, !strings.HasSuffix(n, ".fasta")})
 	}
 	return out, nil
 }
@@ -552,7 +552,7 @@ func setDeclared(data []byte, n string) []byte {
 	return joinLines2(out)
 }
 
-func (c *c07Ctx) mutateFile(cf corpusFile, quick bool) {
+func (c *c07Ctx) mutateFile(cf c07File, quick bool) {
 	r := c.r
 	data := cf.data
 	name := cf.name
@@ -809,7 +809,7 @@ func (c *c07Ctx) lengthMismatch(quick bool) {
 // ---------------------------------------------------------------------------
 // arbitrary bytes
 
-func (c *c07Ctx) arbitrary(n int, corpus []corpusFile) {
+func (c *c07Ctx) arbitrary(n int, corpus []c07File) {
 	r := c.r
 	gbAlpha := []byte("LOCUSDEFINITIONORIGINFEATURES //\n\n\n   0123456789acgt..()\"/=<>^,:bp-ABCjoincomplement\r>")
 	for t := 0; t < n; t++ {
@@ -1101,7 +1101,7 @@ func mutateString(rg *rng, s string, alpha []byte, keywords []string) string {
 	return string(b)
 }
 
-func (c *c07Ctx) strings(quick bool, corpus []corpusFile) {
+func (c *c07Ctx) strings(quick bool, corpus []c07File) {
 	r := c.r
 	rg := r.rng
 	nMut := 1500
